@@ -441,6 +441,69 @@ def run(ctx, only_entry=False):
                     nop_total[0] += 1
                     if len(used) != n_ops:
                         dropped.append("%s %s: %d operand children, %d reach Instruction::%s" % (rule, desc, n_ops, len(used), variant))
+    # ---- clause 4b: numerals denote their value.  Every consumer that receives a numeral child directly is interpreted on
+    # concrete numeral texts (digit strings chosen to look like another radix's prefix, leading zeros, both letter cases,
+    # the range ends); the value it builds must be the number written -------------------------------------------------------
+    digit_fam = {2: ["0", "1", "10", "0101", "11111111", "00000001", "1111111111111111", "1000000000000000"],
+                 16: ["0", "b", "B", "0b", "0B", "0b1", "0b12", "00b1", "b1", "0b0", "0b01", "7f", "fF", "ff", "0x1"[2:], "ffff", "0b00", "abcd", "0100"],
+                 10: ["0", "7", "42", "255", "007", "256", "65535", "010", "100"]}
+    bad_num = []
+    nnum = 0
+    for (fn_, rule_) in sorted(x for x in done if x[1] is not None):
+        body_ = p.bodies.get(fn_)
+        if body_ is None or body_.argc == 0 or fn_ == ENTRY:
+            continue
+        for desc_, items_, _text in alternatives_for(g, rule_):
+            if not items_:
+                continue
+            for k_, it_ in enumerate(items_):
+                if not (isinstance(it_, PairV) and it_.rule in tab["numeric"]):
+                    continue
+                radix, skip, maxv = tab["numeric"][it_.rule]
+                pref = {2: "0b", 16: "0x", 10: ""}[radix]
+                for digs in digit_fam[radix]:
+                    for pre_ in ({pref, pref.upper()} if pref else {""}):
+                        txt = pre_ + digs
+                        if not g.full_match(it_.rule, txt):
+                            continue
+                        want_v = int(digs, radix)
+                        items2 = tuple(PairV(it_.rule, it_.idx, None, Str(txt)) if j_ == k_ else y_ for j_, y_ in enumerate(items_))
+                        In = absint.Interp(p)
+                        In.unroll = 12
+                        pm.install(In)
+                        for c_ in all_parse:
+                            if c_ != fn_ and not c_.endswith(("parse_constant_dec", "parse_word_dec")):
+                                In.fn_overrides[c_] = lambda I_, st, depth, callee, args, b_, ln: Opaque("sub")
+                        stn = absint.State()
+                        try:
+                            rvn = In.run_body(body_, [PairV(rule_, None, items2, None)], stn, 0)
+                        except absint.AnalysisLimit:
+                            rvn = None
+                        nnum += 1
+                        leaves = []
+
+                        def _ints(v_):
+                            if isinstance(v_, bool):
+                                return
+                            if isinstance(v_, int):
+                                leaves.append(v_)
+                            elif isinstance(v_, En):
+                                for fs_ in v_.vs.values():
+                                    for x_ in fs_:
+                                        _ints(x_)
+                            elif isinstance(v_, Agg):
+                                for x_ in v_.f:
+                                    _ints(x_)
+                            elif isinstance(v_, Arr):
+                                for x_ in v_.e:
+                                    _ints(x_)
+                        _ints(rvn)
+                        if leaves != [want_v]:
+                            bad_num.append("%s reads %r as %s (written value %d)" % (fn_.rsplit("::", 1)[-1], txt, leaves if leaves else D.short(rvn), want_v))
+    chk.ob("numeric/value", not bad_num, "a numeral in any base is read as the number written (prefix stripped once, digits in the "
+           "numeral's own radix)", "parser/implementation/mod.rs", "; ".join(sorted(set(bad_num))[:4]) or "%d (consumer, numeral) cases" % nnum,
+           "A4 of the numeral consumers on concrete numeral texts")
+    chk.floor("numeral cases", nnum, 150)
     chk.ob("ast/no-operand-dropped", not dropped,
            "every operand child of an instruction rule is handed to a sub-parser and stored in the AST", "parser/implementation/mod.rs",
            "; ".join(dropped[:3]) or "%d (rule, alternative) cases with sub-parsed operands" % nop_total[0],
